@@ -75,6 +75,27 @@ Theorem C19_map_keeps_keys : forall (m : @omap V) f m1 tr ok, Inv m -> m_map zer
   map fst (abs zero m1) = map fst (abs zero m).
 Proof. exact (m_map_keeps_keys zero). Qed.
 
+(* two live keys never swap places: if b is iterated after a, it still is after Set of any key,
+   Update of any key, and Delete of a third key *)
+Theorem C19_order_stable_set : forall (m : @omap V) a b k v, Inv m ->
+  before a b (abs zero m) -> before a b (abs zero (m_set m k v)).
+Proof. exact (m_order_stable_set zero). Qed.
+
+Theorem C19_order_stable_update : forall (m : @omap V) a b k f, Inv m ->
+  before a b (abs zero m) -> before a b (abs zero (m_update zero m k f)).
+Proof. exact (m_order_stable_update zero). Qed.
+
+Theorem C19_order_stable_delete : forall (m : @omap V) a b k, Inv m -> k <> a -> k <> b ->
+  before a b (abs zero m) -> before a b (abs zero (m_delete m k)).
+Proof. exact (m_order_stable_delete zero). Qed.
+
+Theorem C19_order_stable_filter : forall (m : @omap V) f m1 tr a b va vb, Inv m ->
+  m_filter zero m f = (m1, tr) ->
+  s_get (abs zero m) a = Some va -> f a va = true ->
+  s_get (after a (abs zero m)) b = Some vb -> f b vb = true ->
+  before a b (abs zero m1).
+Proof. exact (m_order_stable_filter zero). Qed.
+
 Theorem C19_any_interleaving : forall (threads : list (list (@op V))) h, interleaving threads h ->
   snd (run zero empty h) = snd (s_run zero [] h) /\
   abs zero (fst (run zero empty h)) = fst (s_run zero [] h) /\
@@ -94,6 +115,11 @@ Example C19_inv_reachable :
   Inv m /\ abs 0%Z m = [(1, 5%Z); (2, 9%Z)].
 Proof. split; [apply (C19_refines 0%Z)|reflexivity]. Qed.
 
+Example C19_before_somewhere :
+  let m := fst (run 0%Z empty [OSet 1 5%Z; OSet 0 2%Z; OSet 2 9%Z]) in
+  before 1 2 (abs 0%Z m) /\ ~ before 2 1 (abs 0%Z m).
+Proof. split; [reflexivity|discriminate]. Qed.
+
 Print Assumptions C19_refines.
 Print Assumptions C19_step.
 Print Assumptions C19_filter_visits_each_once.
@@ -107,5 +133,9 @@ Print Assumptions C19_get_after_delete.
 Print Assumptions C19_filter_twice.
 Print Assumptions C19_update_keeps_keys.
 Print Assumptions C19_map_keeps_keys.
+Print Assumptions C19_order_stable_set.
+Print Assumptions C19_order_stable_update.
+Print Assumptions C19_order_stable_delete.
+Print Assumptions C19_order_stable_filter.
 Print Assumptions C19_lock_discipline.
 Print Assumptions C19_api_complete.
